@@ -44,48 +44,78 @@ Proof.
   simpl in H. rewrite Hm, Hv in H. destruct H as (H1 & H2 & H3); auto.
 Qed.
 
+Lemma ann_err_mem_frame : forall i s,
+  cst (ann_err_mem i s) = cst s /\ cmem (ann_err_mem i s) = cmem s /\ hw (ann_err_mem i s) = hw s.
+Proof. intros. unfold ann_err_mem. destruct (nth i (emem s) false); simpl; auto. Qed.
+
+Lemma ann_err_struct_frame : forall s,
+  cst (ann_err_struct s) = cst s /\ cmem (ann_err_struct s) = cmem s /\ hw (ann_err_struct s) = hw s.
+Proof. intros. unfold ann_err_struct. destruct (est s); simpl; auto. Qed.
+
+Lemma zl_eqb_eq : forall a b, zl_eqb a b = true -> a = b.
+Proof.
+  induction a as [|x a IH]; destruct b as [|y b]; simpl; intros H; try discriminate; auto.
+  apply andb_prop in H. destruct H as (H1 & H2). apply Z.eqb_eq in H1. subst. f_equal. auto.
+Qed.
+
 (* --- generated struct read / write of the layout without combined methods --- *)
+(* complete loop: the member caches are exactly the collected values; aborted loop: the struct cache is untouched *)
 Lemma nr_read_all_spec : forall L b a s, cmem s = a ++ b ->
-  let '(s', vs) := nr_read_all L (seq (length a) (length b)) s in
-  cmem s' = a ++ vs /\ length vs = length b /\ cst s' = cst s /\ hw s' = hw s.
+  match nr_read_all L (seq (length a) (length b)) s with
+  | (s', Some vs) => cmem s' = a ++ vs /\ length vs = length b /\ cst s' = cst s /\ hw s' = hw s
+  | (s', None) => cst s' = cst s /\ hw s' = hw s /\ length (cmem s') = length (cmem s)
+  end.
 Proof.
   induction b as [|x b IH]; intros a s Hc; simpl.
   - rewrite Hc. auto.
   - unfold nr_read_mem. destruct (nth (length a) (sl_mr L) false).
-    + set (v := nth (length a) (hw s) 0%Z). simpl.
-      specialize (IH (a ++ [v]) (ann_mem_quiet (length a) v s)).
-      rewrite app_length in IH. simpl in IH. rewrite Nat.add_1_r in IH.
-      destruct (nr_read_all L (seq (S (length a)) (length b)) (ann_mem_quiet (length a) v s)) as [s2 vs].
-      destruct IH as (H1 & H2 & H3 & H4).
-      { unfold ann_mem_quiet; simpl. rewrite Hc, set_nth_app, <- app_assoc. reflexivity. }
-      rewrite H1, <- app_assoc. simpl. rewrite H2. auto.
+    + destruct (nth (length a) (frd s) false).
+      * destruct (ann_err_mem_frame (length a) s) as (E1 & E2 & E3). rewrite E1, E2, E3. auto.
+      * set (v := nth (length a) (hw s) 0%Z). simpl.
+        specialize (IH (a ++ [v]) (ann_mem_quiet (length a) v s)).
+        rewrite app_length in IH. simpl in IH. rewrite Nat.add_1_r in IH.
+        assert (Hc1 : cmem (ann_mem_quiet (length a) v s) = (a ++ [v]) ++ b).
+        { unfold ann_mem_quiet; simpl. rewrite Hc, set_nth_app, <- app_assoc. reflexivity. }
+        specialize (IH Hc1).
+        destruct (nr_read_all L (seq (S (length a)) (length b)) (ann_mem_quiet (length a) v s)) as [s2 [vs|]].
+        -- destruct IH as (H1 & H2 & H3 & H4). rewrite H1, <- app_assoc. simpl. rewrite H2. auto.
+        -- destruct IH as (H1 & H2 & H3). simpl in H1, H2, H3. rewrite set_nth_length in H3. auto.
     + assert (Hx : nth (length a) (cmem s) 0%Z = x) by (rewrite Hc; apply nth_app_len).
       rewrite Hx.
       specialize (IH (a ++ [x]) s).
       rewrite app_length in IH. simpl in IH. rewrite Nat.add_1_r in IH.
-      destruct (nr_read_all L (seq (S (length a)) (length b)) s) as [s2 vs].
-      destruct IH as (H1 & H2 & H3 & H4).
-      { rewrite Hc, <- app_assoc. reflexivity. }
-      rewrite H1, <- app_assoc. simpl. rewrite H2. auto.
+      assert (Hc1 : cmem s = (a ++ [x]) ++ b) by (rewrite Hc, <- app_assoc; reflexivity).
+      specialize (IH Hc1).
+      destruct (nr_read_all L (seq (S (length a)) (length b)) s) as [s2 [vs|]].
+      * destruct IH as (H1 & H2 & H3 & H4). rewrite H1, <- app_assoc. simpl. rewrite H2. auto.
+      * exact IH.
 Qed.
 
 Lemma nr_write_all_spec : forall L val b a s, cmem s = a ++ b ->
-  let '(s', vs) := nr_write_all L (seq (length a) (length b)) val s in
-  cmem s' = a ++ vs /\ length vs = length b /\ cst s' = cst s /\ length (hw s') = length (hw s).
+  match nr_write_all L (seq (length a) (length b)) val s with
+  | (s', Some vs) => cmem s' = a ++ vs /\ length vs = length b /\ cst s' = cst s /\ length (hw s') = length (hw s)
+  | (s', None) => cst s' = cst s /\ length (hw s') = length (hw s) /\ length (cmem s') = length (cmem s)
+  end.
 Proof.
   induction b as [|x b IH]; intros a s Hc; simpl.
   - rewrite Hc. auto.
-  - set (v := nth (length a) val 0%Z).
+  - unfold nr_write_mem.
+    destruct (nth (length a) (sl_mw L) false && nth (length a) (fwr s) false); [auto|].
+    set (v := nth (length a) val 0%Z).
     set (s0 := if nth (length a) (sl_mw L) false then set_hw s (set_nth (length a) v (hw s)) else s).
     assert (H0 : cmem s0 = cmem s /\ cst s0 = cst s /\ length (hw s0) = length (hw s)).
     { unfold s0. destruct (nth (length a) (sl_mw L) false); simpl; auto using set_nth_length. }
-    destruct H0 as (E1 & E2 & E3).
+    destruct H0 as (E1 & E2 & E3). simpl.
     specialize (IH (a ++ [v]) (ann_mem_quiet (length a) v s0)).
     rewrite app_length in IH. simpl in IH. rewrite Nat.add_1_r in IH.
-    destruct (nr_write_all L (seq (S (length a)) (length b)) val (ann_mem_quiet (length a) v s0)) as [s2 vs].
-    destruct IH as (H1 & H2 & H3 & H4).
+    assert (Hc1 : cmem (ann_mem_quiet (length a) v s0) = (a ++ [v]) ++ b).
     { unfold ann_mem_quiet; simpl. rewrite E1, Hc, set_nth_app, <- app_assoc. reflexivity. }
-    rewrite H1, <- app_assoc. simpl. rewrite H2. simpl in H3, H4. rewrite H3, H4. auto.
+    specialize (IH Hc1).
+    destruct (nr_write_all L (seq (S (length a)) (length b)) val (ann_mem_quiet (length a) v s0)) as [s2 [vs|]].
+    + destruct IH as (H1 & H2 & H3 & H4).
+      rewrite H1, <- app_assoc. simpl. rewrite H2. simpl in H3, H4. rewrite H3, H4. auto.
+    + destruct IH as (H1 & H2 & H3). simpl in H1, H2, H3. rewrite set_nth_length, E1 in H3.
+      rewrite H1, H2, H3. auto.
 Qed.
 
 (* --- the invariant --- *)
@@ -101,9 +131,10 @@ Definition op_wf (L : layout) (o : op) : Prop :=
   | SetS v => length v = sl_n L
   | SetM i _ => i < sl_n L
   | Hw v => length v = sl_n L
+  | Fault _ _ => True
   end.
 
-(* the two finding classes: assignment to the side from which no callback propagates *)
+(* two finding classes: assignment to the side from which no callback propagates *)
 Definition op_safe (L : layout) (o : op) : Prop :=
   match o with
   | SetS _ => sl_rw L = true
@@ -114,18 +145,27 @@ Definition op_safe (L : layout) (o : op) : Prop :=
 Lemma init_inv : forall L, Inv L (init L).
 Proof. intros; unfold Inv, init; simpl. rewrite repeat_length. auto. Qed.
 
+Lemma inv_frame : forall L s s', cst s' = cst s -> cmem s' = cmem s -> hw s' = hw s -> Inv L s -> Inv L s'.
+Proof. intros L s s' E1 E2 E3 (E & Hm & Hh). unfold Inv. rewrite E1, E2, E3. auto. Qed.
+
 Lemma rw_read_struct_inv : forall L s, Inv L s ->
-  let '(s', d) := rw_read_struct L s in Inv L s' /\ d = cmem s'.
+  match rw_read_struct L s with
+  | (s', Some d) => Inv L s' /\ d = cmem s'
+  | (s', None) => Inv L s'
+  end.
 Proof.
-  intros L s (E & Hm & Hh). unfold rw_read_struct. destruct (sl_sr L).
-  - destruct (ann_struct_cb_spec (sl_n L) (hw s) s Hh Hm) as (H1 & H2 & H3).
-    unfold Inv. rewrite H1, H2, H3. auto.
+  intros L s HI. pose proof HI as (E & Hm & Hh). unfold rw_read_struct. destruct (sl_sr L).
+  - destruct (nth 0 (frd s) false).
+    + destruct (ann_err_struct_frame s) as (E1 & E2 & E3). eapply inv_frame; eauto.
+    + destruct (ann_struct_cb_spec (sl_n L) (hw s) s Hh Hm) as (H1 & H2 & H3).
+      unfold Inv. rewrite H1, H2, H3. auto.
   - unfold Inv. auto.
 Qed.
 
 Lemma rw_write_struct_inv : forall L v s, length v = sl_n L -> Inv L s -> Inv L (fst (rw_write_struct L v s)).
 Proof.
-  intros L v s Hv (E & Hm & Hh). unfold rw_write_struct; simpl.
+  intros L v s Hv HI. pose proof HI as (E & Hm & Hh). unfold rw_write_struct.
+  destruct (sl_sw L && nth 0 (fwr s) false); [exact HI|]. simpl.
   set (s1 := if sl_sw L then set_hw s v else s).
   assert (H0 : cmem s1 = cmem s /\ length (hw s1) = sl_n L).
   { unfold s1; destruct (sl_sw L); simpl; auto. }
@@ -140,23 +180,29 @@ Proof.
 Qed.
 
 Lemma rw_read_mem_inv : forall L i s, Inv L s ->
-  let '(s', v) := rw_read_mem L i s in Inv L s' /\ v = nth i (cmem s') 0%Z.
+  match rw_read_mem L i s with
+  | (s', Some v) => Inv L s' /\ v = nth i (cmem s') 0%Z
+  | (s', None) => Inv L s'
+  end.
 Proof.
   intros L i s HI. unfold rw_read_mem.
-  pose proof (rw_read_struct_inv L s HI) as H. destruct (rw_read_struct L s) as [s1 d].
-  destruct H as (H1 & H2). subst d. split.
-  - now apply ann_mem_quiet_same.
-  - unfold ann_mem_quiet; simpl. now rewrite set_nth_same.
+  pose proof (rw_read_struct_inv L s HI) as H. destruct (rw_read_struct L s) as [s1 [d|]].
+  - destruct H as (H1 & H2). subst d. split.
+    + now apply ann_mem_quiet_same.
+    + unfold ann_mem_quiet; simpl. now rewrite set_nth_same.
+  - destruct (ann_err_mem_frame i s1) as (E1 & E2 & E3). eapply inv_frame; eauto.
 Qed.
 
 Lemma rw_write_mem_inv : forall L i v s, Inv L s -> Inv L (fst (rw_write_mem L i v s)).
 Proof.
   intros L i v s HI. unfold rw_write_mem.
   pose proof (rw_write_struct_inv L (set_nth i v (cst s)) s) as H.
-  destruct (rw_write_struct L (set_nth i v (cst s)) s) as [s1 r1]. simpl in H.
-  assert (H1 : Inv L s1). { apply H; auto. destruct HI as (E & Hm & _). now rewrite set_nth_length, E. }
-  pose proof (rw_read_mem_inv L i s1 H1) as H2. destruct (rw_read_mem L i s1) as [s2 r].
-  destruct H2 as (H2 & ->). simpl. now apply ann_mem_quiet_same.
+  destruct (rw_write_struct L (set_nth i v (cst s)) s) as [s1 [r1|]]; simpl in H.
+  - assert (H1 : Inv L s1). { apply H; auto. destruct HI as (E & Hm & _). now rewrite set_nth_length, E. }
+    pose proof (rw_read_mem_inv L i s1 H1) as H2. destruct (rw_read_mem L i s1) as [s2 [r|]].
+    + destruct H2 as (H2 & ->). simpl. now apply ann_mem_quiet_same.
+    + exact H2.
+  - simpl. apply H; auto. destruct HI as (E & Hm & _). now rewrite set_nth_length, E.
 Qed.
 
 Lemma ann_mem_cb_inv : forall L i v s, Inv L s -> Inv L (ann_mem_cb i v s).
@@ -164,37 +210,49 @@ Proof.
   intros L i v s (E & Hm & Hh). unfold Inv, ann_mem_cb; simpl. rewrite E, set_nth_length. auto.
 Qed.
 
-Lemma nr_read_struct_inv : forall L s, Inv L s -> Inv L (fst (nr_read_struct L s)).
+(* the struct loops: complete -> agreement; aborted -> agreement iff no member cache changed (the guard) *)
+Lemma nr_read_struct_inv : forall L s, partial_abort L s ReadS = false -> sl_rw L = false -> Inv L s ->
+  Inv L (fst (nr_read_struct L s)).
 Proof.
-  intros L s (E & Hm & Hh). unfold nr_read_struct.
+  intros L s Hp Hrw (E & Hm & Hh). unfold nr_read_struct. unfold partial_abort in Hp. rewrite Hrw in Hp. simpl in Hp.
   pose proof (nr_read_all_spec L (cmem s) [] s eq_refl) as H. simpl in H. rewrite Hm in H.
-  destruct (nr_read_all L (seq 0 (sl_n L)) s) as [s1 vs]. destruct H as (H1 & H2 & H3 & H4).
-  unfold Inv; simpl. rewrite H1, H4. simpl. rewrite H2. auto.
+  destruct (nr_read_all L (seq 0 (sl_n L)) s) as [s1 [vs|]].
+  - destruct H as (H1 & H2 & H3 & H4). unfold Inv; simpl. rewrite H1, H4. simpl. rewrite H2. auto.
+  - destruct H as (H1 & H2 & H3). apply negb_false_iff, zl_eqb_eq in Hp. simpl.
+    destruct (ann_err_struct_frame s1) as (E1 & E2 & E3). unfold Inv. rewrite E1, E2, E3, H1, H2, Hp. auto.
 Qed.
 
-Lemma nr_write_struct_inv : forall L v s, Inv L s -> Inv L (fst (nr_write_struct L v s)).
+Lemma nr_write_struct_inv : forall L v s, partial_abort L s (WriteS v) = false -> forallb (in_range L) v = true ->
+  sl_rw L = false -> Inv L s -> Inv L (fst (nr_write_struct L v s)).
 Proof.
-  intros L v s (E & Hm & Hh). unfold nr_write_struct.
+  intros L v s Hp Hr Hrw (E & Hm & Hh). unfold nr_write_struct. unfold partial_abort in Hp. rewrite Hrw, Hr in Hp. simpl in Hp.
   pose proof (nr_write_all_spec L v (cmem s) [] s eq_refl) as H. simpl in H. rewrite Hm in H.
-  destruct (nr_write_all L (seq 0 (sl_n L)) v s) as [s1 vs]. destruct H as (H1 & H2 & H3 & H4).
-  unfold Inv; simpl. rewrite H1, H4. simpl. rewrite H2. auto.
+  destruct (nr_write_all L (seq 0 (sl_n L)) v s) as [s1 [vs|]].
+  - destruct H as (H1 & H2 & H3 & H4). unfold Inv; simpl. rewrite H1, H4. simpl. rewrite H2. auto.
+  - destruct H as (H1 & H2 & H3). apply negb_false_iff, zl_eqb_eq in Hp. simpl.
+    unfold Inv. rewrite H1, H2, Hp. auto.
 Qed.
 
-Lemma step_inv : forall L s o, op_wf L o -> op_safe L o -> Inv L s -> Inv L (fst (step L s o)).
+Lemma step_inv : forall L s o, op_wf L o -> op_safe L o -> partial_abort L s o = false -> Inv L s ->
+  Inv L (fst (step L s o)).
 Proof.
-  intros L s o Hw Hs HI. destruct o; simpl in *.
+  intros L s o Hw Hs Hp HI. destruct o; simpl in Hw, Hs; simpl.
+  - destruct (sl_rw L) eqn:Erw.
+    + pose proof (rw_read_struct_inv L s HI) as H. destruct (rw_read_struct L s) as [s1 [d|]]; simpl; tauto.
+    + pose proof (nr_read_struct_inv L s Hp Erw HI) as H. destruct (nr_read_struct L s). exact H.
   - destruct (sl_rw L).
-    + pose proof (rw_read_struct_inv L s HI) as H. destruct (rw_read_struct L s). simpl. tauto.
-    + pose proof (nr_read_struct_inv L s HI) as H. destruct (nr_read_struct L s). exact H.
-  - destruct (sl_rw L).
-    + pose proof (rw_read_mem_inv L i s HI) as H. destruct (rw_read_mem L i s). simpl. tauto.
-    + unfold nr_read_mem. destruct (nth i (sl_mr L) false); simpl; auto. now apply ann_mem_cb_inv.
-  - destruct (forallb (in_range L) v); simpl; auto. destruct (sl_rw L).
+    + pose proof (rw_read_mem_inv L i s HI) as H. destruct (rw_read_mem L i s) as [s1 [d|]]; simpl; tauto.
+    + unfold nr_read_mem. destruct (nth i (sl_mr L) false); simpl; auto.
+      destruct (nth i (frd s) false); simpl.
+      * destruct (ann_err_mem_frame i s) as (E1 & E2 & E3). eapply inv_frame; eauto.
+      * now apply ann_mem_cb_inv.
+  - destruct (forallb (in_range L) v) eqn:Er; simpl; auto. destruct (sl_rw L) eqn:Erw.
     + pose proof (rw_write_struct_inv L v s Hw HI) as H. destruct (rw_write_struct L v s). exact H.
-    + pose proof (nr_write_struct_inv L v s HI) as H. destruct (nr_write_struct L v s). exact H.
+    + pose proof (nr_write_struct_inv L v s Hp Er Erw HI) as H. destruct (nr_write_struct L v s). exact H.
   - destruct (in_range L v); simpl; auto. destruct (sl_rw L).
-    + pose proof (rw_write_mem_inv L i v s HI) as H. destruct (rw_write_mem L i v s). exact H.
-    + unfold nr_write_mem; simpl. apply ann_mem_cb_inv.
+    + apply rw_write_mem_inv; auto.
+    + unfold nr_write_mem. destruct (nth i (sl_mw L) false && nth i (fwr s) false); simpl; auto.
+      apply ann_mem_cb_inv.
       destruct HI as (E & Hm & Hh). destruct (nth i (sl_mw L) false); unfold Inv; simpl; auto.
       rewrite set_nth_length. auto.
   - rewrite Hs. destruct HI as (E & Hm & Hh).
@@ -202,19 +260,61 @@ Proof.
     unfold Inv. rewrite H1, H2, H3. auto.
   - rewrite Hs. now apply ann_mem_cb_inv.
   - destruct HI as (E & Hm & Hh). unfold Inv; simpl. auto.
+  - exact HI.
 Qed.
 
-Lemma run_inv : forall L ops, Forall (op_wf L) ops -> Forall (op_safe L) ops -> Inv L (run L ops).
+(* a history is admissible when every operation is well formed, is not an assignment to the non-propagating side, and no
+   generated struct loop is aborted after it changed a member cache; faults that abort a loop before any change, faults
+   of direct member access and faults in the combined layout are all admissible *)
+Fixpoint run_ok (L : layout) (s : state) (ops : list op) : Prop :=
+  match ops with
+  | [] => True
+  | o :: r => op_wf L o /\ op_safe L o /\ partial_abort L s o = false /\ run_ok L (fst (step L s o)) r
+  end.
+
+Lemma fold_inv : forall L ops s, run_ok L s ops -> Inv L s -> Inv L (fold_left (fun s o => fst (step L s o)) ops s).
 Proof.
-  intros L ops. unfold run. generalize (init_inv L). generalize (init L).
-  induction ops as [|o ops IH]; intros s HI Hw Hs; simpl; auto.
-  inversion Hw; inversion Hs; subst. apply IH; auto. now apply step_inv.
+  induction ops as [|o ops IH]; intros s Hr HI; simpl; auto.
+  destruct Hr as (Hw & Hs & Hp & Hr). apply IH; auto. now apply step_inv.
 Qed.
 
-Lemma struct_agree : forall L ops, Forall (op_wf L) ops -> Forall (op_safe L) ops ->
+Lemma struct_agree : forall L ops, run_ok L (init L) ops ->
   let s := run L ops in
   length (cst s) = sl_n L /\ length (cmem s) = sl_n L /\ forall i, i < sl_n L -> nth i (cst s) 0%Z = nth i (cmem s) 0%Z.
 Proof.
-  intros L ops Hw Hs. destruct (run_inv L ops Hw Hs) as (E & Hm & Hh). simpl.
+  intros L ops Hr. destruct (fold_inv L ops (init L) Hr (init_inv L)) as (E & Hm & Hh). simpl. unfold run.
   rewrite E. auto.
+Qed.
+
+(* without faults in the script nothing is ever aborted: the guard reduces to the two assignment classes *)
+Definition no_faults (s : state) : Prop := (forall i, nth i (frd s) false = false) /\ (forall i, nth i (fwr s) false = false).
+
+Lemma nr_read_all_no_fault : forall L idx s, no_faults s ->
+  exists s' vs, nr_read_all L idx s = (s', Some vs) /\ no_faults s'.
+Proof.
+  induction idx as [|i idx IH]; intros s Hn; simpl; [eauto|].
+  unfold nr_read_mem. destruct Hn as (Hr & Hw). rewrite Hr.
+  destruct (nth i (sl_mr L) false).
+  - destruct (IH (ann_mem true i (nth i (hw s) 0%Z) s)) as (s' & vs & H1 & H2); [split; auto|].
+    rewrite H1. eauto.
+  - destruct (IH s) as (s' & vs & H1 & H2); [split; auto|]. rewrite H1. eauto.
+Qed.
+
+Lemma nr_write_all_no_fault : forall L idx val s, no_faults s ->
+  exists s' vs, nr_write_all L idx val s = (s', Some vs) /\ no_faults s'.
+Proof.
+  induction idx as [|i idx IH]; intros val s Hn; simpl; [eauto|].
+  unfold nr_write_mem. destruct Hn as (Hr & Hw). rewrite Hw, andb_false_r.
+  destruct (IH val (ann_mem true i (nth i val 0%Z)
+              (if nth i (sl_mw L) false then set_hw s (set_nth i (nth i val 0%Z) (hw s)) else s)))
+    as (s' & vs & H1 & H2).
+  { destruct (nth i (sl_mw L) false); split; auto. }
+  rewrite H1. eauto.
+Qed.
+
+Lemma no_fault_no_abort : forall L s o, no_faults s -> partial_abort L s o = false.
+Proof.
+  intros L s o Hn. destruct o; simpl; auto.
+  - destruct (nr_read_all_no_fault L (seq 0 (sl_n L)) s Hn) as (s' & vs & H & _). rewrite H. apply andb_false_r.
+  - destruct (nr_write_all_no_fault L (seq 0 (sl_n L)) v s Hn) as (s' & vs & H & _). rewrite H. apply andb_false_r.
 Qed.
